@@ -76,7 +76,7 @@ def observe(c, lazy=False):
     inner, mid, outer, step = F(c["inner"]) * DELTA, F(c["mid"]) * DELTA, F(c["outer"]) * DELTA, F(c["step"]) * DELTA
     ev = {"case": c, "lazy": lazy, "raised": False, "n": n, "inner": c["inner"], "mid": c["mid"], "outer": c["outer"], "annular": [], "annular_unit": True,
           "integrate_radial": [], "integrate_unit": True, "flexible": [], "flexible_unit": True, "flexible_applicable": False, "segmented_sum": [],
-          "segmented_unit": True, "split_low": [], "split_high": [], "flex_bins": [], "flex_offset": c["inner"], "flex_width": c["step"]}
+          "segmented_unit": True, "split_low": [], "split_high": [], "flex_bins": [], "flex_prefix": [], "flex_offset": c["inner"], "flex_width": c["step"]}
     try:
         w = onehot_waves(n, lazy)
         ev["annular"], ev["annular_unit"] = decode(abtem.AnnularDetector(inner=inner, outer=outer).detect(w))
@@ -112,6 +112,8 @@ def observe(c, lazy=False):
             ev["flexible_applicable"] = True
             off = float(fm.radial_offset)
             ev["flexible"], ev["flexible_unit"] = decode(fm.integrate_radial(off, off + 2 * stated))
+            for k in range(1, min(fa.shape[1], 18) + 1):
+                ev["flex_prefix"].append(decode(fm.integrate_radial(off, off + k * stated))[0])
     except Exception as ex:
         ev["raised"] = True
         ev["exc"] = f"{type(ex).__name__}: {ex}"[:300]
@@ -141,12 +143,13 @@ def self_test(ctx: Ctx):
     good = {"raised": False, "n": 4, "inner": q(3, 4), "mid": q(5, 4), "outer": q(9, 4), "annular": ring(0.75, 2.25), "annular_unit": True,
             "integrate_radial": ring(0.75, 2.25), "integrate_unit": True, "flexible": ring(0.75, 2.75), "flexible_unit": True, "flexible_applicable": True,
             "segmented_sum": ring(0.75, 2.25), "segmented_unit": True, "split_low": ring(0.75, 1.25), "split_high": ring(1.25, 2.25),
-            "flex_bins": [ring(0.75, 1.75), ring(1.75, 2.75)], "flex_offset": q(3, 4), "flex_width": q(1)}
+            "flex_bins": [ring(0.75, 1.75), ring(1.75, 2.75)], "flex_prefix": [ring(0.75, 1.75), ring(0.75, 2.75)], "flex_offset": q(3, 4), "flex_width": q(1)}
     b1 = dict(good, flex_bins=[ring(0.75, 2.0), ring(2.0, 3.25)])          # bins wider than the stated sampling
     b2 = dict(good, annular=ring(0.75, 2.25)[:-1])
     b3 = dict(good, split_high=ring(1.0, 2.25))
-    res = ctx.validate("DetectTrace", [[good], [b1], [b2], [b3]], "DetectTrace.cfg")
-    if not res[0][0] or res[1][0] or res[2][0] or res[3][0]:
+    b4 = dict(good, flex_prefix=[ring(0.75, 1.75), ring(0.75, 1.75)])     # the outermost requested bin dropped
+    res = ctx.validate("DetectTrace", [[good], [b1], [b2], [b3], [b4]], "DetectTrace.cfg")
+    if not res[0][0] or res[1][0] or res[2][0] or res[3][0] or res[4][0]:
         raise Machinery(f"DetectTrace self-test failed: {res}")
     ctx.notes["binding_selftest"] = {"good_accepted": True, "wrong_bin_width_rejected": res[1][1], "missing_pixel_rejected": res[2][1],
                                     "overlapping_ranges_rejected": res[3][1]}
@@ -155,7 +158,7 @@ def self_test(ctx: Ctx):
 def run(ctx: Ctx):
     quick = ctx.tier == "quick"
     ctx.rule = ("scenarios = grid size (12 even, 13 odd) x inner < mid < outer from {0, k + 1/4} (pixel units, no lattice pixel on a "
-                "limit) x flexible step {9/8, 13/8} pixels x segment counts, enumerated by TLC; each on the one-hot ensemble over all "
+                "limit) x flexible step {9/8, 13/8, and from the centre 7/20} pixels x segment counts, enumerated by TLC; each on the one-hot ensemble over all "
                 "n^2 diffraction pixels (angular sampling 2.1 mrad, so limits and steps are fractional in mrad), eager and lazy; "
                 "non-trivial = every scenario")
     r = ctx.design_check("DetectModel", cfg_text=CFG.format(sizes="{12}" if quick else "{12, 13}"), label="DetectModel ring algebra", workers=1,
